@@ -3,6 +3,7 @@ import PsV.Driver.C04
 import PsV.Driver.C16
 import PsV.Driver.C19
 import PsV.Driver.C13
+import PsV.Driver.C18
 import PsV.Driver.Eval
 import PsV.Driver.C15
 import PsV.Driver.C12
@@ -20,7 +21,8 @@ def drivers : List (String × IO Unit) :=
    ("C12", C12.run),
    ("C19", stateless C19.handle),
    ("C14", C14.run),
-   ("C13", stateless C13.handle)]
+   ("C13", stateless C13.handle),
+   ("C18", C18.run)]
 
 def main (args : List String) : IO UInt32 := do
   match args with
